@@ -441,7 +441,7 @@ def main():
   ]
   rep.coverage["rule"] = (
     "one evaluation = one user bundle applied to the real engine followed by the comparison of "
-    "every formula column of every table with the specification function scratch(e); 30% of the "
+    "every formula column of every table with the specification function scratch(e); about a quarter of the "
     "bundles set a formula drawn from the grammar (column arithmetic, reference chains, reference "
     "list attributes, lookupRecords/lookupOne with CONTAINS and order_by, summary $group, "
     "PREVIOUS/NEXT/RANK, cross-table chains) instantiated on the current document and kept "
